@@ -340,6 +340,21 @@ def rule_cond(ctx):
 
 
 def run(ctx):
+    # the condition is evaluated when it is asked: a callable test is called on every read (no cached value), the setter
+    # only stores; a routine's logical time is its own stored second, its beat that second on its own clock
+    cnd2 = ctx.repo.cls('sc3.base.stream:Condition')
+    tg = cnd2.methods['test']
+    ctx.ob('C11.cond', f'{tg.fq}:evaluated-on-read', 'if callable(self._test): return self._test() else: return self._test' in full(tg.node) and
+           not any(isinstance(x, ast.Assign) for x in walk_local(tg.node)),
+           'Condition.test calls a callable test each time it is read and stores nothing', tg.node, tg.module)
+    ts = cnd2.setters['test']
+    ctx.ob('C11.cond', f'{ts.fq}:stores', [norm(x) for x in U.body_nodoc(ts.node)] == [f'self._test = {ts.params[1]}'],
+           'the test setter only stores the value or callable', ts.node, ts.module)
+    tt = ctx.repo.cls('sc3.base.stream:TimeThread')
+    ctx.ob('C11.restore', f'{tt.fq}._seconds', full(tt.methods['_seconds'].node).endswith('return self._m_seconds'),
+           'a time thread reports the logical second stored for it', tt.methods['_seconds'].node, tt.module)
+    ctx.ob('C11.restore', f'{tt.fq}._beats', full(tt.methods['_beats'].node).endswith('return self._clock.secs2beats(self._seconds)'),
+           'its beat is that second converted by its own clock', tt.methods['_beats'].node, tt.module)
     # recorded, not repaired: the waiting list of a Condition is emptied only by signal()/unhang(); stop(), reset() and
     # pause()+resume() take a hung routine out of its wait without removing it from that list
     cnd = ctx.repo.cls('sc3.base.stream:Condition')
@@ -362,6 +377,8 @@ def run(ctx):
 
 
 MUTANTS = [
+    dict(rule='C11.cond', name='Condition caches the value of a callable test', file='sc3/base/stream.py',
+         old="        if callable(self._test):\n            return self._test()\n        else:\n            return self._test", new="        if callable(self._test):\n            self._test = self._test()\n        return self._test"),
     dict(rule='C11.fsm', name='(fix reverted) next() re-entered from the running routine', file='sc3/base/stream.py',
          old="            if self.state == self.State.Running:\n                raise RoutineException('cannot be resumed within itself')\n\n", new=""),
     dict(rule='C11.fsm', name='(fix reverted) reset keeps the terminal value', file='sc3/base/stream.py',
